@@ -309,4 +309,59 @@ theorem runOps_keysGood {M : Type} (cfg : Cfg) (hs : cfg.single = none) (pathOk 
   | nil => exact hw
   | cons o os ih => simp only [runOps]; exact ih _ (opStep_keysGood cfg hs pathOk gen w o hw)
 
+/-! ### frame: who can change a key -/
+
+/-- the operations that can change what is stored under `k`: a completed turn on the thread whose key is `k`,
+    an external change of `k`, a datastore swap. -/
+def touches {M : Type} (k : Str) : Op M → Option (Resp M) → Bool
+  | .req r, some (.ok _ _ _) => r.threadId.map threadKey == some k
+  | .ext k' _, _ => k == k'
+  | .swap _, _ => true
+  | _, _ => false
+
+def touchedIn {M : Type} (k : Str) : List (Op M) → List (Option (Resp M)) → Bool
+  | o :: os, a :: as => touches k o a || touchedIn k os as
+  | _, _ => false
+
+theorem absStep_untouched {M : Type} (σ : Str → Option (List M)) (o : Op M) (a : Option (Resp M)) (k : Str)
+    (h : touches k o a = false) : absStep σ o a k = σ k := by
+  cases o with
+  | req r =>
+    cases a with
+    | none => rfl
+    | some a =>
+      cases a with
+      | ok reply used served =>
+        simp only [absStep, turnEffect]
+        cases ht : r.threadId with
+        | none => rfl
+        | some t =>
+          simp only
+          have : k ≠ threadKey t := by
+            intro e
+            simp [touches, ht, e] at h
+          simp [this]
+      | _ => rfl
+  | ext k' f =>
+    have : k ≠ k' := by
+      intro e
+      simp [touches, e] at h
+    simp [absStep, this]
+  | swap st => simp [touches] at h
+  | proc i => rfl
+  | restart => rfl
+  | evict k' => rfl
+
+theorem absRun_untouched {M : Type} (ops : List (Op M)) (as : List (Option (Resp M))) (σ : Str → Option (List M)) (k : Str)
+    (h : touchedIn k ops as = false) : absRun σ ops as k = σ k := by
+  induction ops generalizing as σ with
+  | nil => rfl
+  | cons o os ih =>
+    cases as with
+    | nil => rfl
+    | cons a as =>
+      simp only [absRun]
+      simp only [touchedIn, Bool.or_eq_false_iff] at h
+      rw [ih as _ h.2, absStep_untouched σ o a k h.1]
+
 end NemoVerif.Server
